@@ -58,6 +58,12 @@ Definition c_msm := msm bwo.
 Definition c_msm_inner (c : Z) (points : list element) (scalars : list Fr) (split_first : bool) : element :=
   msm_inner bwo c points (fst (partition_scalars c (map zval scalars))) split_first.
 
+(* the whole of MultiExp (window / split choice, slices, completion order given by [rev_order]) *)
+Definition c_multi_exp (nbTasks : Z) (rev_order : bool) (points : list element) (scalars : list Fr)
+           (split_first : bool) : option element :=
+  multi_exp_top bwo 40 nbTasks (fun k => if rev_order then rev (seq 0 (k - 1)) else seq 0 (k - 1))
+                points (map zval scalars) split_first.
+
 (* fr.BatchInvert on Montgomery representatives *)
 Definition monto : FOps Z :=
   mkFOps Z 0 i_one i_add i_sub i_mul i_neg i_inverse Z.eqb (fun v => i_to_mont v) (fun x => i_from_mont x).
